@@ -53,3 +53,26 @@ Example C01_nonvacuous :
   Polygon2D_area (mkPolygon2 [mkV2 0 3; mkV2 4 3; mkV2 4 0; mkV2 0 0]) == 12 /\
   Polygon2D_is_clockwise (mkPolygon2 [mkV2 0 3; mkV2 4 3; mkV2 4 0; mkV2 0 0]) = true.
 Proof. vm_compute. repeat split; reflexivity. Qed.
+
+(* mesh kernels (gen/G12_mesh.v): the 2D face area is the absolute shoelace value for every vertex count; the area-weighted centroid
+   of a quad cut along a diagonal is the polygon (area) centroid; a plane-embedded triangle has its 2D area *)
+From LBG Require Import G12_mesh C01_mesh.
+
+Theorem C01_mesh2d_face_area_is_shoelace : forall verts, Mesh2D__get_area verts == Qabs (shoelace2 verts / 2).
+Proof. exact mesh2d_get_area_is_shoelace. Qed.
+Print Assumptions C01_mesh2d_face_area_is_shoelace.
+
+Theorem C01_mesh3d_triangle_area_is_the_planar_area : forall qsqrt, Proper (Qeq ==> Qeq) qsqrt -> forall p, frame_ok p -> forall a b c,
+  qsqrt (tri2 a b c * tri2 a b c) == Qabs (tri2 a b c) ->
+  Mesh3D__get_tri_area_2 qsqrt (Plane_xy_to_xyz p a, Plane_xy_to_xyz p b, Plane_xy_to_xyz p c) == Qabs (tri2 a b c) / 2.
+Proof. exact embedded_tri_area. Qed.
+Print Assumptions C01_mesh3d_triangle_area_is_the_planar_area.
+
+Theorem C01_quad_area_centroid_is_polygon_centroid : forall p0 p1 p2 p3,
+  let cr (a b : V2) := v2x a * v2y b - v2x b * v2y a in
+  let A2 := cr p0 p1 + cr p1 p2 + cr p2 p3 + cr p3 p0 in
+  ~ A2 == 0 ->
+  v2x (quad_centroid2 p0 p1 p2 p3) == ((v2x p0 + v2x p1) * cr p0 p1 + (v2x p1 + v2x p2) * cr p1 p2 + (v2x p2 + v2x p3) * cr p2 p3 + (v2x p3 + v2x p0) * cr p3 p0) / (3 * A2) /\
+  v2y (quad_centroid2 p0 p1 p2 p3) == ((v2y p0 + v2y p1) * cr p0 p1 + (v2y p1 + v2y p2) * cr p1 p2 + (v2y p2 + v2y p3) * cr p2 p3 + (v2y p3 + v2y p0) * cr p3 p0) / (3 * A2).
+Proof. exact quad_centroid2_is_polygon_centroid. Qed.
+Print Assumptions C01_quad_area_centroid_is_polygon_centroid.
